@@ -292,7 +292,7 @@ def cresult(obs_dec):
 
 class Decode(Family):
     name = "decode"
-    prelude = ("From TskVerif Require Import Base.Common C03.Model C03.Spec.\n"
+    prelude = ("From TskVerif Require Import Base.Common C03.Model C03.Spec C03.PyViews.\n"
                "Open Scope Z_scope.")
     workers = 8
     shard = 150
@@ -536,6 +536,11 @@ class Decode(Family):
             tr = ctree(obs["trees"][str(s)])
             terms.append("check_decode %s %s %s %s %s" % (
                 clist(par), tr, "v", csite(desc, s), cresult(d)))
+            if "err" not in d and isinstance(d.get("counts"), list):
+                # Variant.counts() against its model (reproduces the duplicate-allele finding too)
+                obs_counts = "[" + "; ".join("(%s, %s)" % ("None" if k is None else "Some %s" % cbytes_of(k), cz(c))
+                                              for k, c in d["counts"]) + "]"
+                terms.append("counts_eqb (counts_model %s) %s" % (cresult(d)[4:-1], obs_counts))
         body = " && ".join("(%s)" % t for t in terms) if terms else "true"
         return "match %s with Ok v => %s | _ => false end" % (vinit, body)
 
@@ -1084,7 +1089,7 @@ class Exhaustive(Decode):
 
     def generate(self, rng, tier):
         maxlen = 2 if tier == "quick" else 3
-        states = ("A", "C") if tier == "quick" else ("A", "C", "")
+        states = ("A", "C")
         for base in BASES:
             n = len(base["nodes"])
             par = gen_ts.parent_at(base, base["sites"][0][0])
